@@ -46,7 +46,7 @@ static int g_nu;
 static unit_t g_ext[16];
 static int g_next;
 static unit_t g_main;
-static struct { char kind[16], access[8]; ABT_pool h; } g_pool[MAXP];
+static struct { char kind[16], access[8]; ABT_pool h; volatile int dead; } g_pool[MAXP];
 static int g_npool;
 static struct { char sched[16]; int npools; int pools[MAXP]; ABT_xstream h; } g_es[MAXES];
 static int g_nes = 1;
@@ -70,6 +70,7 @@ static ABT_pool pool_handle(int p)
 /* migration callback with an optional rendezvous (finding F6: a second request issued while the first one
  * is being handled) */
 static volatile int g_cb_calls[MAXU], g_cb_armed, g_cb_entered, g_cb_release;
+static volatile int g_join_issued[16]; /* ES index -> an ABT_xstream_join on it is about to be / has been called */
 static void mig_cb(ABT_thread thread, void *arg)
 {
     unit_t *u = (unit_t *)arg;
@@ -331,6 +332,7 @@ static void run_ops(unit_t *me)
             }
             case 'j': { /* ABT_xstream_join(ES i): on return every unit of the pools only ES i serves must be done */
                 vh_note(UEV_OPB, 'j', i, 0);
+                g_join_issued[i & 15] = 1;
                 ret = ABT_xstream_join(g_es[i].h);
                 int n, q, unfinished = 0;
                 for (n = 0; n < g_nu; n++)
@@ -355,6 +357,31 @@ static void run_ops(unit_t *me)
                 while (!g_cb_entered)
                     self_yield(me);
                 break;
+            case 'q': /* wait until somebody has called ABT_xstream_join on ES i, and a little longer so that the
+                       * request has been posted */
+                while (!g_join_issued[i & 15]) {
+                    self_yield(me);
+                    usleep(20);
+                }
+                usleep(3000);
+                break;
+            case 'z': { /* the calling ULT (running on ES i) replaces the main scheduler of ES i by a BASIC
+                         * scheduler over pool <p> ("z<i>:<p>") */
+                int p = atoi(strchr(t, ':') + 1);
+                ABT_pool np = pool_handle(p);
+                vh_note(UEV_OPB, 'z', i, p);
+                {
+                    /* the replaced scheduler and the (automatic) pools only it uses are freed by the runtime */
+                    int q;
+                    for (q = 0; q < g_es[i].npools; q++)
+                        g_pool[g_es[i].pools[q]].dead = 1;
+                    g_es[i].npools = 1;
+                    g_es[i].pools[0] = p;
+                }
+                ret = ABT_xstream_set_main_sched_basic(g_es[i].h, ABT_SCHED_BASIC, 1, &np);
+                vh_note(UEV_OPE, 'z', i, ret);
+                break;
+            }
             case 'o': /* let the callback return */
                 g_cb_release = 1;
                 break;
@@ -594,6 +621,8 @@ int main(int argc, char **argv)
     /* pool bookkeeping at quiescence */
     for (i = 0; i < g_npool; i++) {
         size_t sz = 0, tot = 0;
+        if (g_pool[i].dead)
+            continue;
         ABT_pool_get_size(g_pool[i].h, &sz);
         ABT_pool_get_total_size(g_pool[i].h, &tot);
         vh_note(UEV_QUIESCE, 1 + i, sz, tot);
